@@ -26,7 +26,7 @@ UNITS = {
   'sokey': dict(wrapper='w_sokey.cpp', mode='seq', selftest=True, cut=['5localEv']),
   'us_i_i': US_UNIT({'vp_thr_i': ['a', 'b']}),
   'us_i_f': US_UNIT({'vp_thr_i': ['a'], 'vp_thr_f': ['b']}),
-  'us_i_t': US_UNIT({'vp_thr_i': ['a'], 'vp_thr_t': ['b']}, unroll=4),
+  'us_i_t': US_UNIT({'vp_thr_i': ['a'], 'vp_thr_t': ['b']}, unroll=2),
 }
 USD = {'ROUNDS': 1, 'NB': 2, 'NPRE': 2, 'PRE0': 2, 'PRE1': 3}
 HARNESSES = [
